@@ -220,4 +220,48 @@ P_C15(c) ==
     [] opt = "nolinkwrap" -> (~HasLinkEl(dom) \/ ~CfgOf(a.cfg).footnotes) => SameResult(a, b)
     [] opt = "min_wrap" -> ~HasNestedBlock(dom) => SameResult(a, b)
     [] OTHER -> FALSE
+
+(* ---- C14: every id with visible content yields one fragment marker at its content ------------ *)
+\* run 1: lines route with the ids; runs 2, 3: string route with and without the ids
+FragOf(n) == FragName(n)
+\* [name, before, vis]: for every element carrying an id / anchor name (outside ignored subtrees):
+\* the number of letters of V(d) preceding it and whether it contains a visible character
+RECURSIVE IdInfo(_, _)
+IdInfoSeq(ns, before) ==
+  FoldLeft(LAMBDA a, n : LET r == IdInfo(n, a.before) IN [before |-> r.before, out |-> a.out \o r.out],
+           [before |-> before, out |-> <<>>], ns)
+IdInfo(n, before) ==
+  IF n.k = "t" THEN [before |-> before + Len(Letters(n.s)), out |-> <<>>]
+  ELSE IF n.k # "e" THEN [before |-> before, out |-> <<>>]
+  ELSE LET inner == IF Ignored(n) THEN [before |-> before, out |-> <<>>]
+                    ELSE IF IsHtml(n, "img") THEN [before |-> before + Len(Letters(FlowText(n))), out |-> <<>>]
+                    ELSE IdInfoSeq(n.c, before)
+           fr == FragOf(n)
+       IN IF IsNull(fr) THEN inner
+          ELSE [before |-> inner.before,
+                out |-> << [name |-> fr.name, before |-> before, vis |-> NonWs(FlowText(n)) # <<>>,
+                            ign |-> Ignored(n)] >> \o inner.out]
+\* markers of the output in reading order with the number of letters emitted before each
+MarkersOf(res) ==
+  FoldLeft(LAMBDA a, x : IF IsFrag(x) THEN [a EXCEPT !.out = Append(@, [name |-> x[3][1][2], before |-> a.n])]
+                         ELSE IF IsLetterCode(x[1]) THEN [a EXCEPT !.n = @ + 1] ELSE a,
+           [n |-> 0, out |-> <<>>], Concat(res.lines)).out
+P_C14(c) ==
+  LET a == c.runs[1]
+      dom == Dom1(c, a)
+      ids == IdInfoSeq(dom, 0).out
+      ms == MarkersOf(a.res)
+      Count(nm) == Cardinality({i \in 1..Len(ms) : ms[i].name = nm})
+      tableFree == ~HasTable(dom) IN
+  /\ IsOk(a) =>
+       \* exactly one marker per id with visible content, never more than one per id, none invented
+       /\ \A i \in 1..Len(ids) : (ids[i].vis => Count(ids[i].name) = 1) /\ Count(ids[i].name) <= 1
+       /\ \A j \in 1..Len(ms) : \E i \in 1..Len(ids) : ids[i].name = ms[j].name
+       \* position: after all text preceding the element, not after its first visible character
+       /\ tableFree => \A i \in 1..Len(ids) : \A j \in 1..Len(ms) :
+                           (ids[i].vis /\ ms[j].name = ids[i].name) => ms[j].before = ids[i].before
+       \* markers carry no width
+       /\ \A i \in 1..Len(a.res.lines) : a.res.sw[i] = SumW(NoFrags(a.res.lines[i]))
+  \* the text does not depend on the ids
+  /\ Len(c.runs) >= 3 => SameResult(c.runs[2], c.runs[3])
 =============================================================================
